@@ -189,6 +189,7 @@ def cases(draw):
         case['style'] = draw(st.sampled_from(T.STYLES))
     elif tk == 'T3':
         case['extra_classes'] = draw(st.integers(1, 3))
+        case['variant'] = draw(st.integers(0, 7))
         case['first'] = draw(st.booleans())
     elif tk == 'T4':
         case['rot'] = draw(st.integers(1, 2))
@@ -237,17 +238,58 @@ def t5(spec, pos):
     return map_types(spec, f)
 
 
-def t3(spec, n, first):
+def t3(spec, n, first, variant=0):
+    """Register additional classes no annotation refers to and no document of the
+    model can match (attribute names of their own). `variant` chooses what kind
+    of classes: 0 = an enum and flat classes (as before); other bits add a
+    base/derived pair, an abstract base with a concrete child, a string-like
+    class, a class with hooks - so that facts about the *set* of registered
+    classes change ("there is a hierarchy", "there is an abstract class", ...)."""
     s = copy.deepcopy(spec)
     new = [{'name': 'Zq%d' % i, 'kind': 'obj', 'bases': [], 'params': [
         {'name': 'zq_attr%d' % i, 'type': 'int'},
         {'name': 'a', 'type': 'str', 'default': ['str', 'z']}]} for i in range(n)]
     new[0] = {'name': 'Zq0', 'kind': 'enum', 'members': ['zq_red', 'zq_blue']}
+    if variant & 1:
+        new += [{'name': 'ZqBase', 'kind': 'obj', 'bases': [], 'params': [{'name': 'zq_b', 'type': 'int'}]},
+                {'name': 'ZqDer', 'kind': 'obj', 'bases': ['ZqBase'], 'params': [
+                    {'name': 'zq_b', 'type': 'int'}, {'name': 'zq_c', 'type': 'str'}]}]
+    if variant & 2:
+        new += [{'name': 'ZqAbs', 'kind': 'obj', 'bases': [], 'abstract': 'abc',
+                 'params': [{'name': 'zq_d', 'type': 'int'}]},
+                {'name': 'ZqCon', 'kind': 'obj', 'bases': ['ZqAbs'], 'params': [
+                    {'name': 'zq_d', 'type': 'int'}, {'name': 'zq_e', 'type': 'int'}]}]
+    if variant & 4:
+        new += [{'name': 'ZqStr', 'kind': 'userstring'},
+                {'name': 'ZqHk', 'kind': 'obj', 'bases': [], 'params': [{'name': 'zq_f', 'type': 'int'}],
+                 'recognize': [['attr', 'zq_f']], 'savorize': [['dashes_to_unders']]}]
     s['classes'] = s['classes'] + new
     order = list(s.get('order') or [c['name'] for c in spec['classes']])
     names = [c['name'] for c in new]
     s['order'] = names + order if first else order + names
     return s
+
+
+def enum_extra_registrations(maxn):
+    """T3, bounded-exhaustive: every small document over portfolio models (flat
+    ones, hierarchies, a lone abstract class, enums and string-likes in unions)
+    x 4 kinds of additionally registered classes, registered first or last."""
+    from yv import portfolio
+    from yv.props import c02
+
+    def gen_(shard, nshards):
+        i = 0
+        for name in ('AL', 'P', 'U2', 'AB', 'D', 'E', 'EU', 'L'):
+            keys = portfolio.KEYS[name]
+            scals = portfolio.SCALS_BY.get(name, portfolio.SCALS)
+            for n in range(1, maxn + 1):
+                for text in c02.small_trees(n, tuple(keys), tuple(scals)):
+                    for variant, first in ((1, False), (2, True), (4, False), (7, True)):
+                        if i % nshards == shard:
+                            yield {'portfolio': name, 'T': 'T3', 'text': text, 'extra_classes': 1,
+                                   'first': first, 'variant': variant, 'src': 'enum'}
+                        i += 1
+    return gen_
 
 
 def outcome(spec, text):
@@ -315,7 +357,7 @@ def check(case, ctx):
             ctx.count('T2_restyle_error')
             return
     elif tk == 'T3':
-        spec2 = t3(spec, case['extra_classes'], case['first'])
+        spec2 = t3(spec, case['extra_classes'], case['first'], case.get('variant', 0))
     elif tk == 'T4':
         spec2 = t4(spec, case['rot'])
     elif tk == 'T5':
@@ -370,4 +412,9 @@ def phases(tier):
     return [HypPhase('transformations', cases(), n),
             EnumPhase('small_tagged_documents_restyled', enum_restyled(k),
                       'every mapping document of <=%d nodes over 7 hierarchy portfolio models x '
-                      'every class tag on the root x block and double-quoted re-serialisation' % k)]
+                      'every class tag on the root x block and double-quoted re-serialisation' % k),
+            EnumPhase('small_documents_extra_registrations', enum_extra_registrations(k),
+                      'T3: every document of <=%d nodes over 8 portfolio models (a lone abstract '
+                      'class, flat models, hierarchies, enums / string-likes in unions) x 4 sets of '
+                      'additionally registered classes (base/derived pair, abstract base + child, '
+                      'string-like + hooked class, all of them), registered first or last' % k)]
